@@ -7,7 +7,7 @@ import modelspec as M
 from props import util
 
 THEOREMS = ['C19_dt_is_elapsed_time', 'C19_dt_positive', 'C19_cumulative_time', 'C19_restricted_is_subset', 'C19_restricted_order',
-            'C19_restricted_arrays', 'C19_coarse_covers', 'C19_coarse_dt', 'C19_interval_data', 'C19_overlap_rejected']
+            'C19_restricted_arrays', 'C19_coarse_covers', 'C19_coarse_dt', 'C19_interval_data', 'C19_overlap_rejected', 'C19_restricted_twice']
 IMPORTS = 'Num LP Cert Mapping Dcf Grid GridProofs Assets Periodic Portfolio Corr Build'
 ZONES = [None, None, 'CET', 'Europe/London', 'US/Eastern']
 DST = {'CET': ['2021-03-27 12:00', '2021-10-30 12:00', '2021-03-28 00:00', '2021-10-31 00:00'],
@@ -109,7 +109,7 @@ def gen_case0(rng, i):
 
 
 def run(ctx):
-    if not ctx.proof_gate(THEOREMS):
+    if not ctx.proof_gate(THEOREMS, ['Build.vo']):
         return
     n = 80 if ctx.tier == 'quick' else 600
     rng = random.Random('%d/c19' % ctx.seed)
@@ -188,6 +188,12 @@ def run(ctx):
                 elif nd['I'] != want or nd['tp'] != [tp[i] for i in want]:
                     ctx.violation('impl-violation', {'spec': sp, 'windows': [w, w2], 'observed': {'I': nd['I'], 'tp': nd['tp']}, 'expected': {'I': want, 'tp': [tp[i] for i in want]}},
                                   trigger={'what': 'restricting twice: indices not those of the original grid'})
+                if nd.get('status') == 'ok':
+                    # the model's restrict_rg (GridProofs.v, C19_restricted_twice) on the same two windows
+                    s2 = M.inst(w2['start'], tz) if w2.get('start') else min(tp + [M.inst(g['start'], tz)])
+                    e2 = M.inst(w2['end'], tz) if w2.get('end') else M.inst(g['end'], tz)
+                    exprs.append('(c19_nested_case %s %s %s %s %s)' % (rg, C.z(s2), C.z(e2), C.lst([C.nat(i) for i in nd['I']]), C.lst([C.z(p_) for p_ in nd['tp']])))
+                    owners.append((sp, 'restricted twice', [w, w2]))
             exprs.append('(c19_window_case %s %s %s %s %s %s %s)' % (
                 rg, C.b(ok), C.lst([C.nat(i) for i in r.get('I', [])]), C.lst([C.z(p) for p in r.get('tp', [])]),
                 C.qvec(r.get('dt', [])), C.qvec(r.get('Dt', [])),
